@@ -17,6 +17,9 @@ pub enum Case {
     Conv { func: String, arg: V, style: u8 },
     /// string() followed by the inverse conversion
     Round { value: V },
+    /// several conversions evaluated one after the other inside one program: `[f0(x0), f1(x1), ...]`; each element is what
+    /// the conversion gives on its own (arguments whose 64-bit patterns or numeric values coincide across types are the point)
+    Seq { items: Vec<(String, V)> },
 }
 
 fn edge_class(v: &V) -> (bool, &'static str) {
@@ -111,6 +114,42 @@ pub fn check(c: &Case) -> Outcome {
                 _ => "conv:other",
             };
             pass_n(edge, vec![class])
+        }
+        Case::Seq { items } => {
+            let conv = |func: &str, arg: &V| match func {
+                "int" => conv_int(arg),
+                "uint" => conv_uint(arg),
+                "double" => conv_double(arg),
+                _ => conv_string(arg),
+            };
+            let mut exp = vec![];
+            let mut first_err = None;
+            for (k, (f, a)) in items.iter().enumerate() {
+                match conv(f, a) {
+                    Ok(v) => exp.push(v),
+                    Err(Stop::Unsupported(w)) => return Outcome::Skip(w),
+                    Err(_) => {
+                        first_err = Some(k);
+                        break;
+                    }
+                }
+            }
+            let vars: Vec<(String, V)> = items.iter().enumerate().map(|(k, (_, a))| (format!("x{k}"), a.clone())).collect();
+            let src = format!("[{}]", items.iter().enumerate().map(|(k, (f, _))| if k % 2 == 0 { format!("{f}(x{k})") } else { format!("x{k}.{f}()") }).collect::<Vec<_>>().join(", "));
+            let got = match sut::run_src(&src, &vars) {
+                Ran::Done(r) => r,
+                o => return fail(format!("`{src}` {vars:?}: {}", o.show())),
+            };
+            let ok = match (&first_err, &got) {
+                (None, R::Val(V::List(g))) => g.len() == exp.len() && g.iter().zip(&exp).all(|(a, b)| same(a, b)),
+                (Some(_), R::Err(..)) => true,
+                _ => false,
+            };
+            if !ok {
+                return fail(format!("`{src}` with {vars:?}: element by element the conversions give {exp:?}{}, observed {}", if first_err.is_some() { " and then an error" } else { "" }, got.show()));
+            }
+            let kinds: std::collections::BTreeSet<&str> = items.iter().map(|(_, a)| a.kind()).collect();
+            pass_n(kinds.len() >= 2, vec![if kinds.len() >= 2 { "sequence:mixed-argument-types" } else { "sequence:one-argument-type" }])
         }
         Case::Round { value } => {
             let (inv, wrap): (&str, &str) = match value {
@@ -208,7 +247,7 @@ pub fn run(r: &mut Runner) {
     r.rule = "cases: literals of the i64 / u64 boundary sets and random 64-bit patterns spelled as decimal, hex (both cases), signed (incl. -9223372036854775808 and negative hex), with leading zeros and u/U suffixes; finite doubles (boundary set and random \
               bit patterns) spelled shortest-round-trip, with e / E+ exponents, leading dot, and as the *exact decimal expansion of the dyadic rational* (expected bits known without any parser); out-of-range forms expecting a compile error. \
               Conversions int / uint / double / string / bytes in both call styles over ints, uints, doubles (NaN, +-inf, +-2^63 and 2^64 and their neighbours by one ulp, +-2^53+-1, subnormals, -0.0), numeric and non-numeric strings; \
-              round trips int(string(i)), uint(string(u)), double(string(d)) (bit-equal, NaN as a class), string(string(s)), string(bytes(s)). Oracle: exact range tests on the truncated value / i128 arithmetic / nearest-double by integer rounding. \
+              several conversions inside one program over arguments that coincide as bit patterns or as numbers across types; round trips int(string(i)), uint(string(u)), double(string(d)) (bit-equal, NaN as a class), string(string(s)), string(bytes(s)). Oracle: exact range tests on the truncated value / i128 arithmetic / nearest-double by integer rounding. \
               Non-trivial: within 2 ulp / +-2 of a range edge, non-finite, -0.0, a hex / exponent / signed spelling, or a pattern with a high bit set; distinct by (form or function, bits)."
         .into();
     r.assumptions = vec![
@@ -248,6 +287,17 @@ pub fn run(r: &mut Runner) {
     for s in ["", "0", "-0", "1", "-1", "9223372036854775807", "-9223372036854775808", "9223372036854775808", "-9223372036854775809", "18446744073709551615", "18446744073709551616", " 1", "1 ", "+1", "0x10", "1e3", "1.0", "abc", "１", "٣", "1_000", "--1", "é", "𝄞x", "NaN", "inf"] {
         conv_cases(&V::s(s), &mut fixed);
         fixed.push(Case::Round { value: V::s(s) });
+    }
+    {
+        // arguments that coincide as 64-bit patterns or as numbers across types
+        let t: Vec<V> = vec![V::Int(-1), V::UInt(u64::MAX), V::Int(i64::MIN), V::UInt(1 << 63), V::Int(i64::MAX), V::UInt(i64::MAX as u64), V::Int(1), V::UInt(1), V::f(1.0), V::Int(0), V::UInt(0), V::f(0.0), V::f(-0.0), V::f(-1.0), V::s("1"), V::s("-1"), V::f(4607182418800017408.0), V::Int(4607182418800017408)];
+        for f in ["string", "int", "uint", "double"] {
+            for a in &t {
+                for b in &t {
+                    fixed.push(Case::Seq { items: vec![(f.to_string(), a.clone()), (f.to_string(), b.clone()), (f.to_string(), a.clone())] });
+                }
+            }
+        }
     }
     r.sweep("boundary-literals-and-conversions", fixed, check);
     let n = r.tier.n(8_000, 400_000);
@@ -310,6 +360,24 @@ pub fn run(r: &mut Runner) {
                 }),
             };
             Case::Conv { func: u.pick(&["int", "uint", "double", "string", "bytes"]).to_string(), arg, style: u.below(2) as u8 }
+        },
+        check,
+    );
+    r.random(
+        "random-conversion-sequences",
+        24,
+        n / 2,
+        |u: &mut Chooser| {
+            let bits = u.bits64();
+            let base = match u.below(3) {
+                0 => bits,
+                1 => *u.pick(&[u64::MAX, 1 << 63, 0, 1, (1 << 63) - 1, (1 << 53) + 1]),
+                _ => gen_u64(u),
+            };
+            // the same 64 bits read as int, uint and double, and the same number in each type that can hold it
+            let views = [V::Int(base as i64), V::UInt(base), V::f(f64::from_bits(base)), V::f(base as f64), V::f(base as i64 as f64), V::Str((base as i64).to_string()), V::Str(base.to_string())];
+            let k = 2 + u.below(4);
+            Case::Seq { items: (0..k).map(|_| (u.pick(&["string", "string", "int", "uint", "double"]).to_string(), u.pick(&views).clone())).collect() }
         },
         check,
     );
